@@ -1,6 +1,7 @@
 """C09  AllocProfiler is a transparent wrapper around the wrapped allocator."""
 from lib.facts import norm, place_fields, origins
 
+INLINE = True      # crate-local helpers the rules do not know by name are inlined into their callers (lib/inline.py)
 EXPLANATION = (
     "Fully structural. R09.1: in each of the four GlobalAlloc methods of AllocProfiler<A> there is exactly one call of "
     "a GlobalAlloc method, it lies on every normal path, has the enclosing method's own name, receives `&self.alloc` "
@@ -126,6 +127,8 @@ def run(ctx, prog, crate):
         n += 1
         for i in sorted(b.live):
             t = b.term(i)
+            if b.inlined_from(i):
+                continue    # a copy of a helper's block: examined in the helper's own body
             if t["k"] == "drop":
                 ctx.fail("R09.2", ["drop-in-allocator-hook", b.path, t["ty"]],
                          "a value of type `%s` is dropped inside an allocator hook" % t["ty"], b.where(i))
